@@ -161,7 +161,8 @@ int main(int argc, char** argv) {
     if (msg.empty() && m.Status() == Manifold::Error::NoError) msg = provenance(g, reg, st);
     // classification of a property-value failure by the history of the program (keys of known_findings.txt)
     const bool propMsg = msg.find("interpolates to") != std::string::npos || msg.find("lies outside source triangle") != std::string::npos;
-    const bool geomMsg = msg.find("lies in the plane of no face") != std::string::npos || msg.find("from the plane of face") != std::string::npos || msg.find("is oriented against") != std::string::npos || msg.find("is not planar") != std::string::npos;
+    const bool zeroMsg = msg.find("has only") != std::string::npos && msg.find("channels") != std::string::npos;
+    const bool geomMsg = zeroMsg || msg.find("lies in the plane of no face") != std::string::npos || msg.find("from the plane of face") != std::string::npos || msg.find("is oriented against") != std::string::npos || msg.find("is not planar") != std::string::npos;
     if (propMsg && P.desc.find("!n3") != std::string::npos) msg = "prop-after-refine3plus: " + msg;
     else if ((propMsg || geomMsg) && (P.desc.find("(self)") != std::string::npos || P.desc.find("(coincident)") != std::string::npos)) msg = "coincident-boolean: " + msg;
     hz::emit(tag, exportRequest(*impl), exportAnswer(g, normalsRewritten(*impl)), msg.empty(), msg);
